@@ -526,7 +526,7 @@ def _iterdsl_programs(run, path, name, limit=None, seed=1, alt_sources=False):
             return kk == exp
         ps.add(body, "K:" + exp, rec, accept=accept)
         # the same chain from the other source kinds (Sources of IterDsl.tla): chains of depth <= 1, every fifth deeper one
-        if alt_sources and "srcs" in r and (len(r["chain"]) <= 1 or (k_line % 5 == 0 and len(r["chain"]) == 2)):
+        if alt_sources and "srcs" in r and (len(r["chain"]) <= 1 or (k_line % 8 == 0 and len(r["chain"]) == 2)):
             for kind in ("array", "iter_copied", "range", "range_incl", "chars", "repeat_take", "user_into", "user_iter"):
                 alt = gi.alt_source_case(r, kind)
                 if alt is None:
